@@ -170,7 +170,7 @@ def handle : Handler := fun op j =>
       pure (res (Json.bool (preConsistent (← parseInstIn tbl j)))))
   | "inst.sub_d" => some (do
       let tbl ← parseTable j
-      pure (res (Json.bool (Ty.isSubDTop (← tyAt tbl j "s") (← tyAt tbl j "t")))))
+      pure (res (Json.bool (Ty.D2.isSubDTop (← tyAt tbl j "s") (← tyAt tbl j "t")))))
   | _ => none
 
 end Driver.Inst
